@@ -4,7 +4,7 @@
 (* some not) on inputs with 0, 1 and 2 matches.  One state per replacement    *)
 (* string; the behaviour printed carries, per (pattern, input), the expected  *)
 (* result of replace_all with THIS replacement string.                        *)
-EXTENDS Beh
+EXTENDS Beh, Scan
 
 CONSTANTS MaxRepl
 
@@ -38,4 +38,6 @@ T12_ReplLaw == \A p \in Pats : LET c == Compile(p, <<>>, TRUE) IN
      /\ (any /\ ~ReplValid(rs)) => (r.k = "err" /\ r.e = "InvalidReplacementString")
      /\ (any /\ ReplValid(rs)) => r.k = "ok"
      /\ ~any => r.k \in {"ok", "either"} /\ r.v = s
+(* T20 for every replacement string: the replace loop (latch, digit loop) refines OpReplace *)
+T20_ReplRefines == \A p \in Pats : LET c == Compile(p, <<>>, TRUE) IN \A s \in RInputs : ScanRefines(c.prog, s, rs)
 =============================================================================
